@@ -6,6 +6,7 @@ import (
 	"google.golang.org/grpc/status"
 	"math/rand"
 	"strings"
+	"time"
 	"unicode/utf8"
 
 	"google.golang.org/grpc/metadata"
@@ -79,6 +80,11 @@ func genMetaScript(r *rand.Rand, kind Kind, half bool) *Script {
 				break
 			}
 		}
+	}
+	// handlers that go through grpc.SetHeader / SendHeader / SetTrailer with their context; callers with a deadline
+	s.ViaCtx = r.Intn(4) == 0
+	if r.Intn(4) == 0 {
+		s.CallTimeout = pick(r, time.Hour, 10*time.Minute, 36*time.Hour)
 	}
 	// in a full-duplex handler the receive part stays first (keeps the script deadlock-free)
 	s.Handler = append(recvs, h...)
